@@ -273,6 +273,8 @@ func lbTransitions(state, prop int) (newState, lineBreak, rule int) {
 		return lbPO, LineDontBreak, 231
 	case lbEB | prPO<<32:
 		return lbPO, LineDontBreak, 231
+	case lbExtPicCn | prPO<<32:
+		return lbPO, LineDontBreak, 231
 
 	// LB24.
 	case lbAny | prPO<<32:
